@@ -467,6 +467,8 @@ pub struct WriteRunStats {
     pub flush_ok_after_writeback_fault: bool,
     pub flush_ok_checks: u64,
     pub reopen_checks: u64,
+    /// flush returned Ok but the raw bytes could not be opened / the stream not be read
+    pub reopen_problems: Vec<String>,
 }
 
 /// Runs a mutating workload under the fault plan in `ctl` (write-side domain).
@@ -721,13 +723,20 @@ pub fn run_write_script(version: u8, max_buf: Option<u32>, script: &[WOp], ctl: 
                         // again. Judged only if the image opens and the stream is found - damage
                         // that an earlier failed call left elsewhere is not this clause's business.
                         let snap = Io { data: ctl_image(&c_io), pos: 0, ctl: None, cap: crate::backend::DEFAULT_CAP, file: None, file_path: None };
-                        if let Ok(Ok(mut again)) = guard("reopen", || open_options(None, false).open_with(Io::from_bytes(snap.snapshot()))) {
+                        let reopened = guard("reopen", || open_options(None, false).open_with(Io::from_bytes(snap.snapshot())))?;
+                        if let Err(e) = &reopened {
+                            st.reopen_problems.push(format!("open: {}", normalise_msg(&e.to_string())));
+                        }
+                        if let Ok(mut again) = reopened {
                             let rb = guard("readback_reopened", || -> std::io::Result<Vec<u8>> {
                                 let mut f = again.open_stream(WNAMES[name])?;
                                 let mut v = Vec::new();
                                 f.read_to_end(&mut v)?;
                                 Ok(v)
                             })?;
+                            if let Err(e) = &rb {
+                                st.reopen_problems.push(format!("read: {}", normalise_msg(&e.to_string())));
+                            }
                             if let Ok(v) = rb {
                                 st.reopen_checks += 1;
                                 if let Some((&o, &b)) = expected.iter().find(|(&o, &b)| v.get(o as usize) != Some(&b)) {
